@@ -187,6 +187,12 @@ func c19Bursts(c *core.Ctx) {
 var c19Responses = []struct{ kind, payload string }{
 	{"result", `{"result":{"a":1}}`}, {"result-null", `{"result":null}`}, {"resource", `{"resource":{"rid":"svc.x"}}`},
 	{"error", `{"error":{"code":"custom.err","message":"Custom"}}`}, {"invalid-json", `{"result":`}, {"empty", ``}, {"no-member", `{}`}, {"number", `42`},
+	// first bytes next to, but outside, the letter ranges that mark a pre-response: ASCII
+	// neighbours of a-z/A-Z and bytes >= 0x80 (a byte order mark, Latin-1 letters, UTF-8
+	// lead bytes). None of these is a pre-response: each is the response (a parse error)
+	{"first-byte-at", `@{"result":1}`}, {"first-byte-bracket", `[{"result":1}]`}, {"first-byte-backtick", "`x"}, {"first-byte-underscore", `_timeout:"100"`},
+	{"first-byte-space", ` {"result":{"a":2}}`}, {"first-byte-bom", "\xef\xbb\xbf" + `{"result":{"a":3}}`}, {"first-byte-e9", "\xe9t\xe9"}, {"first-byte-b5", "\xb5s"},
+	{"first-byte-aa", "\xaa"}, {"first-byte-c0", "\xc0x"}, {"first-byte-ff", "\xff\xfe"}, {"first-byte-utf8", "\u00e9timeout:\"100\""}, {"first-byte-d7", "\xd7"}, {"first-byte-80", "\x80abc"},
 }
 
 func c19RandCase(r *rand.Rand) c19Case {
